@@ -28,6 +28,21 @@
 //!    run until nothing is pending (at most 6), and the reload again equals
 //!    the live index and the model (soundness + completeness + count).
 
+//!
+//! MUTATIONS INSIDE THE CALLBACKS (second family of cases, no fault): every
+//! callback is an await point of the index's future, so the caller's own task
+//! may mutate the index there (what `Collection::update` does while a
+//! background flush is in flight); the granular protocols additionally leave
+//! the caller in control between `store_dirty_nodes`, `store_ids` and
+//! `store_metadata`. At EVERY such site of every protocol (node callback j,
+//! ids, metadata, purge callback j) ONE mutation is issued before the callback
+//! answers: remove + re-insert (other vector) of the id being written /
+//! deleted, remove + re-insert of another id that is dirty, insert of a fresh
+//! id, remove of the id being written. The pass then runs to its end, the
+//! image must load; "nothing pending" must imply reload == live index, and
+//! after the rest of the history and fault-free passes to quiescence the
+//! reload must equal the live index (vectors included) and the model.
+
 use serde_json::json;
 use std::collections::BTreeSet;
 use std::time::Instant;
@@ -35,7 +50,7 @@ use vcore::{Run, Violation, util};
 use vhnsw::enumerate::{Item, for_each_history, items};
 use vhnsw::hist::{Op, World, base_ops, complete_pass, no_panic, ops_short, quiet_panics};
 use vhnsw::model::{Fail, Tally, check_index, same_graph};
-use vhnsw::sut::{Cfg, Fault, PROTOS, Proto, Write, all_cfgs, checkpoint_pass, load, nothing_pending, quiescent};
+use vhnsw::sut::{Cfg, Fault, PROTOS, Proto, Site, Write, all_cfgs, checkpoint_pass, checkpoint_pass_hooked, load, nothing_pending, quiescent};
 
 #[derive(Clone, Debug, Default)]
 struct CaseOut {
@@ -44,6 +59,8 @@ struct CaseOut {
     purge_calls: usize,
     wrote_ids: bool,
     wrote_meta: bool,
+    ids_site: bool,
+    meta_site: bool,
     /// the faulted pass left the live index with nothing pending
     nothing_pending_after_pass: bool,
     passes_to_quiescence: usize,
@@ -80,7 +97,7 @@ fn run_case(c: &Case, tally: &mut Tally) -> Result<CaseOut, Vec<(Fail, &'static 
         let pass = checkpoint_pass(&w.index, proto, w.clock, fault);
         let wrote_ids = pass.writes.iter().any(|x| matches!(x, Write::Ids(_)));
         let wrote_meta = pass.writes.iter().any(|x| matches!(x, Write::Meta(_)));
-        let mut out = CaseOut { fault_hit: pass.fault_hit, node_calls: pass.node_calls, purge_calls: pass.purge_calls, wrote_ids, wrote_meta, ..Default::default() };
+        let mut out = CaseOut { fault_hit: pass.fault_hit, node_calls: pass.node_calls, purge_calls: pass.purge_calls, wrote_ids, wrote_meta, ids_site: pass.ids_site, meta_site: pass.meta_site, ..Default::default() };
         if fault != Fault::None && !pass.fault_hit {
             return Ok(out);
         }
@@ -187,8 +204,270 @@ fn violation(c: &Case, phase: &str, f: &Fail) -> Violation {
     }
 }
 
+
+// ---------------------------------------------------------------------------
+// Mutations issued from inside the callbacks of a checkpoint pass
+// ---------------------------------------------------------------------------
+
+/// The one mutation issued at a site. "Current id" = the id the callback is
+/// writing (node callback) or deleting (purge callback).
+#[derive(Clone, Copy, Debug, PartialEq, Eq, serde::Serialize, serde::Deserialize)]
+enum Mutn {
+    /// remove (when live) + insert of the current id with its OTHER vector
+    ReinsertSelf,
+    /// remove + insert (other vector) of another live id: the most recently inserted unflushed one, else the highest
+    ReinsertOther,
+    /// insert of the lowest id that is not live (and is not the current id)
+    InsertFresh,
+    /// remove of the current id
+    RemoveSelf,
+}
+
+const MUTNS: [Mutn; 4] = [Mutn::ReinsertSelf, Mutn::ReinsertOther, Mutn::InsertFresh, Mutn::RemoveSelf];
+
+struct MutCase<'a> {
+    cfg: &'a Cfg,
+    base: &'a str,
+    seed: u64,
+    ops: &'a [Op],
+    split: usize,
+    proto: Proto,
+    site: Site,
+    mutn: Mutn,
+}
+
+#[derive(Clone, Debug, Default)]
+struct MutOut {
+    /// the site was reached and the mutation had something to do
+    applied: Vec<String>,
+    nothing_pending_after_pass: bool,
+    passes_to_quiescence: usize,
+    key: u64,
+}
+
+fn run_mut_case(c: &MutCase, tally: &mut Tally) -> Result<MutOut, (Fail, &'static str)> {
+    use std::cell::RefCell;
+    let mut phase = "history";
+    let r = no_panic(|| {
+        let (cfg, proto) = (c.cfg, c.proto);
+        let mut w = World::new_with(cfg, c.seed, proto)?;
+        for op in base_ops(c.base) {
+            w.apply(&op)?;
+        }
+        for op in &c.ops[..c.split] {
+            w.apply(op)?;
+        }
+        phase = "mutated_pass";
+        w.clock += 1;
+        let now = w.clock;
+        let before_key = w.model.key();
+        // ids inserted since the last completed flush, oldest first (these are dirty)
+        let unflushed: Vec<u64> = w.window.iter().filter_map(|o| if let Op::Insert { id, .. } = o { Some(*id) } else { None }).collect();
+        let model = RefCell::new(w.model.clone());
+        let lastv = RefCell::new(w.last_variant.clone());
+        let applied: RefCell<Vec<String>> = RefCell::new(Vec::new());
+        let failed: RefCell<Option<Fail>> = RefCell::new(None);
+        let (index, vectors) = (&w.index, &w.vectors);
+        let reinsert = |id: u64| {
+            let mut m = model.borrow_mut();
+            let mut lv = lastv.borrow_mut();
+            if m.live.contains_key(&id) {
+                if !index.remove(id, now) {
+                    *failed.borrow_mut() = Some(Fail::new("op_error", format!("remove({id}) of a live id, issued from inside a callback, returned false")));
+                    return;
+                }
+                m.remove(id);
+                applied.borrow_mut().push(format!("rm({id})"));
+            }
+            let v = 1 - lv.get(&id).copied().unwrap_or(1);
+            let raw = vectors[(id - 1) as usize][v as usize].clone();
+            match index.insert_f32(id, raw.clone(), now) {
+                Ok(()) => {
+                    m.insert(id, &raw);
+                    lv.insert(id, v);
+                    applied.borrow_mut().push(format!("ins({id},{})", if v == 0 { "a" } else { "b" }));
+                }
+                Err(e) => *failed.borrow_mut() = Some(Fail::new("op_error", format!("insert({id}) of an id not in the index, issued from inside a callback, failed: {e}"))),
+            }
+        };
+        let hook = |site: Site, cur: Option<u64>| {
+            if site != c.site || !applied.borrow().is_empty() || failed.borrow().is_some() {
+                return;
+            }
+            match c.mutn {
+                Mutn::ReinsertSelf => {
+                    if let Some(id) = cur {
+                        reinsert(id);
+                    }
+                }
+                Mutn::ReinsertOther => {
+                    let pick = {
+                        let m = model.borrow();
+                        unflushed.iter().rev().copied().find(|i| Some(*i) != cur && m.live.contains_key(i)).or_else(|| m.live.keys().rev().copied().find(|i| Some(*i) != cur))
+                    };
+                    if let Some(id) = pick {
+                        reinsert(id);
+                    }
+                }
+                Mutn::InsertFresh => {
+                    let pick = {
+                        let m = model.borrow();
+                        (1..=vhnsw::hist::N_IDS).find(|i| !m.live.contains_key(i) && Some(*i) != cur)
+                    };
+                    if let Some(id) = pick {
+                        reinsert(id);
+                    }
+                }
+                Mutn::RemoveSelf => {
+                    if let Some(id) = cur {
+                        let mut m = model.borrow_mut();
+                        if m.live.contains_key(&id) {
+                            if index.remove(id, now) {
+                                m.remove(id);
+                                applied.borrow_mut().push(format!("rm({id})"));
+                            } else {
+                                *failed.borrow_mut() = Some(Fail::new("op_error", format!("remove({id}) of a live id, issued from inside a callback, returned false")));
+                            }
+                        }
+                    }
+                }
+            }
+        };
+        let pass = checkpoint_pass_hooked(index, proto, now, Fault::None, &hook);
+        if let Some(f) = failed.into_inner() {
+            return Err(f);
+        }
+        let mut out = MutOut { applied: applied.into_inner(), ..Default::default() };
+        w.model = model.into_inner();
+        w.last_variant = lastv.into_inner();
+        if out.applied.is_empty() {
+            return Ok(out);
+        }
+        if let Some(e) = &pass.error {
+            return Err(Fail::new("flush_error", format!("{e} although no failure was injected (mutation {:?} issued at {:?})", out.applied, c.site)));
+        }
+        w.store.apply_all(&pass.writes);
+        // the image left behind loads; nothing pending => it IS the live index
+        phase = "load_after_mutated_pass";
+        let loaded = load(&w.store).map_err(|e| Fail::new("load_error", e))?;
+        out.nothing_pending_after_pass = nothing_pending(&w.index);
+        if out.nothing_pending_after_pass {
+            phase = "nothing_pending_after_mutated_pass";
+            check_index(&loaded, cfg.metric, cfg.dim, &w.model, None, tally)?;
+            same_graph(&w.index, &loaded)?;
+        }
+        drop(loaded);
+        phase = "suffix";
+        // the histories are enumerated without the inside mutation: an operation of the
+        // remainder that the mutation disabled (insert of an id it inserted, remove of an id it removed) is skipped
+        for op in &c.ops[c.split..] {
+            let enabled = match op {
+                Op::Insert { id, .. } => !w.model.live.contains_key(id),
+                Op::Remove { id } => w.model.live.contains_key(id),
+                Op::FlushLoad => true,
+            };
+            if enabled {
+                w.apply(op)?;
+            }
+        }
+        phase = "completing_passes";
+        for round in 0..=6 {
+            if quiescent(&w.index) {
+                out.passes_to_quiescence = round;
+                break;
+            }
+            if round == 6 {
+                return Err(Fail::new(
+                    "never_quiescent",
+                    format!("after 6 fault-free passes still pending: dirty={} metadata={} tombstones={:?}", w.index.has_dirty_nodes(), w.index.has_pending_metadata_flush(), w.index.removed_node_ids()),
+                ));
+            }
+            w.clock += 1;
+            let ws = complete_pass(&w.index, proto, w.clock)?;
+            w.store.apply_all(&ws);
+        }
+        phase = "load_after_completion";
+        let loaded = load(&w.store).map_err(|e| Fail::new("load_error", e))?;
+        check_index(&loaded, cfg.metric, cfg.dim, &w.model, None, tally)?;
+        same_graph(&w.index, &loaded)?;
+        out.key = util::fnv64(format!("{}|{:?}|{:?}|{:?}|{}|{}", cfg.label(), proto, c.site, c.mutn, before_key, w.model.key()).as_bytes());
+        Ok(out)
+    });
+    r.map_err(|f| (f, phase))
+}
+
+fn mut_violation(c: &MutCase, phase: &str, f: &Fail) -> Violation {
+    Violation {
+        signature: format!("C12|checkpoint|{:?}|inside_{}|{:?}|{}|{}", c.proto, c.site.class(), c.mutn, f.kind, phase),
+        summary: format!(
+            "[{}] base {} layer-seed {} history [{}], checkpoint through {:?} after {} of its operations, mutation {:?} issued from inside the pass at {:?} (before that callback answers), pass runs to its end, then the rest, then fault-free passes, reload; phase {}: {}",
+            c.cfg.label(),
+            c.base,
+            c.seed,
+            ops_short(c.ops),
+            c.proto,
+            c.split,
+            c.mutn,
+            c.site,
+            phase,
+            f.detail
+        ),
+        replay: json!({"cfg": c.cfg, "base": c.base, "seed": c.seed, "ops": c.ops, "split": c.split, "proto": c.proto, "inside": {"site": c.site, "mutation": c.mutn}}),
+    }
+}
+
+/// All (site, mutation) cases of one (history, split, protocol); the sites are
+/// those the fault-free, mutation-free pass offered.
+fn run_mut_cases(item: &Item, ops: &[Op], split: usize, proto: Proto, base_out: &CaseOut, agg: &mut Agg) {
+    let mut sites: Vec<Site> = (0..base_out.node_calls).map(Site::Node).collect();
+    if base_out.ids_site {
+        sites.push(Site::Ids);
+    }
+    if base_out.meta_site {
+        sites.push(Site::Meta);
+    }
+    sites.extend((0..base_out.purge_calls).map(Site::Purge));
+    for site in sites {
+        for mutn in MUTNS {
+            let case = MutCase { cfg: &item.cfg, base: item.base, seed: item.seed, ops, split, proto, site, mutn };
+            let mut tally = Tally::default();
+            let r = run_mut_case(&case, &mut tally);
+            agg.searches += tally.searches;
+            match r {
+                Ok(out) => {
+                    if out.applied.is_empty() {
+                        continue; // nothing to do for this mutation at this site (e.g. no current id)
+                    }
+                    agg.mut_cases += 1;
+                    *agg.mut_by_site.entry(site.class()).or_default() += 1;
+                    *agg.mut_by_kind.entry(format!("{mutn:?}")).or_default() += 1;
+                    *agg.by_proto.entry(format!("{proto:?}")).or_default() += 1;
+                    agg.mut_nothing_pending += out.nothing_pending_after_pass as u64;
+                    agg.distinct.insert(out.key);
+                    if agg.mut_sample.is_none() && matches!(site, Site::Node(j) if j >= 1) && mutn == Mutn::ReinsertSelf && proto == Proto::Granular {
+                        agg.mut_sample = Some(json!({
+                            "cfg": item.cfg.label(), "base": item.base, "layer_seed": item.seed, "history": ops_short(ops), "checkpoint_after_ops": split,
+                            "protocol": format!("{proto:?}"), "site": format!("{site:?}"), "mutation_issued_inside": out.applied,
+                            "nothing_pending_right_after_the_pass": out.nothing_pending_after_pass, "fault_free_passes_until_nothing_pending": out.passes_to_quiescence,
+                        }));
+                    }
+                }
+                Err((f, phase)) => {
+                    agg.mut_cases += 1;
+                    push_violation(agg, mut_violation(&case, phase, &f));
+                }
+            }
+        }
+    }
+}
+
 #[derive(Default)]
 struct Agg {
+    mut_cases: u64,
+    mut_by_site: std::collections::BTreeMap<&'static str, u64>,
+    mut_by_kind: std::collections::BTreeMap<String, u64>,
+    mut_nothing_pending: u64,
+    mut_sample: Option<serde_json::Value>,
     histories: u64,
     cases: u64,
     by_class: std::collections::BTreeMap<&'static str, u64>,
@@ -269,6 +548,7 @@ fn run_item(item: &Item, protos: &[Proto], deadline: Instant) -> Agg {
                 for fault in faults {
                     one(fault, &mut agg);
                 }
+                run_mut_cases(item, ops, split, proto, &base_out, &mut agg);
             }
         }
         true
@@ -290,6 +570,19 @@ fn main() {
         let ops: Vec<Op> = serde_json::from_value(r["ops"].clone()).expect("ops");
         let split = r["split"].as_u64().expect("split") as usize;
         let proto: Proto = serde_json::from_value(r["proto"].clone()).expect("proto");
+        if r["inside"].is_object() {
+            let site: Site = serde_json::from_value(r["inside"]["site"].clone()).expect("site");
+            let mutn: Mutn = serde_json::from_value(r["inside"]["mutation"].clone()).expect("mutation");
+            let case = MutCase { cfg: &cfg, base: &base, seed, ops: &ops, split, proto, site, mutn };
+            let mut tally = Tally::default();
+            let res = run_mut_case(&case, &mut tally);
+            run.add("evaluations", tally.searches);
+            println!("replay [{}] base {} seed {} [{}] split {} {:?} inside {:?} {:?} -> {:?}", cfg.label(), base, seed, ops_short(&ops), split, proto, site, mutn, res);
+            if let Err((f, phase)) = res {
+                run.violation(mut_violation(&case, phase, &f));
+            }
+            run.finish();
+        }
         let fault: Fault = serde_json::from_value(r["fault"].clone()).expect("fault");
         let case = Case { cfg: &cfg, base: &base, seed, ops: &ops, split, proto, fault };
         let mut tally = Tally::default();
@@ -327,6 +620,9 @@ fn main() {
     let mut all_seeds = BTreeSet::new();
     let mut by_class: std::collections::BTreeMap<&'static str, u64> = Default::default();
     let mut by_proto: std::collections::BTreeMap<String, u64> = Default::default();
+    let mut mut_by_site: std::collections::BTreeMap<&'static str, u64> = Default::default();
+    let mut mut_by_kind: std::collections::BTreeMap<String, u64> = Default::default();
+    let mut mut_sampled = false;
     for (depth, bases, dims, metrics, seeds) in plan {
         all_seeds.extend(seeds.iter().copied());
         if !run.in_budget() {
@@ -346,6 +642,20 @@ fn main() {
             run.add("checkpoint_cases", a.cases);
             run.add("evaluations", a.searches);
             run.add("faulted_passes_leaving_nothing_pending", a.nothing_pending_after_fault);
+            run.add("mutation_inside_callback_cases", a.mut_cases);
+            run.add("mutated_passes_leaving_nothing_pending", a.mut_nothing_pending);
+            for (k, n) in a.mut_by_site {
+                *mut_by_site.entry(k).or_default() += n;
+            }
+            for (k, n) in a.mut_by_kind {
+                *mut_by_kind.entry(k).or_default() += n;
+            }
+            if let Some(s) = a.mut_sample {
+                if !mut_sampled && depth >= 1 {
+                    run.sample(s);
+                    mut_sampled = true;
+                }
+            }
             for (k, n) in a.by_class {
                 *by_class.entry(k).or_default() += n;
             }
@@ -379,6 +689,8 @@ fn main() {
     run.add("cooperative_stop_cases", by_class.get("node_stop").copied().unwrap_or(0) + by_class.get("purge_stop").copied().unwrap_or(0));
     run.set("cases_by_fault_class", json!(by_class));
     run.set("cases_by_protocol", json!(by_proto));
+    run.set("mutation_cases_by_site", json!(mut_by_site));
+    run.set("mutation_cases_by_kind", json!(mut_by_kind));
     run.set("protocols", json!(PROTOS.iter().map(|p| format!("{p:?}")).collect::<Vec<_>>()));
     run.set("completed", json!(completed));
     run.set("layer_seeds", json!(all_seeds));
@@ -389,9 +701,14 @@ fn main() {
          Ok(false) / fails (every j), ids write fails, metadata write fails, purge callback j answers Ok(false) / fails (every j). Oracle per case: no ids/metadata published after a stop or failure before the commit \
          record; an injected failure surfaces as Err; the image loads and is sound (old-or-new vectors before the commit record, exact after it); nothing pending (has_dirty_nodes, has_pending_metadata_flush false) \
          implies load(image) == live index (ids, vectors, layers, adjacency lists) and the brute-force oracle incl. completeness and element count; after the remaining operations and fault-free passes of the same \
-         protocol until nothing is pending (<= 6) the reload equals the live index and the model; the layer seed is the declared one; distinct = (configuration, protocol, fault, state at the checkpoint, final state)",
+         protocol until nothing is pending (<= 6) the reload equals the live index and the model; the layer seed is the declared one; distinct = (configuration, protocol, fault, state at the checkpoint, final state). \
+         Second family (counter mutation_inside_callback_cases), same histories / splits / protocols, no fault: at every site of the pass (node callback j; ids callback of flush_with resp. the gap before store_ids; \
+         metadata callback of flush_with / store_metadata_with resp. the gap before store_metadata; purge callback j - the two synchronous writers of flush offer no site) ONE mutation is issued from inside, before the \
+         callback answers: remove + re-insert with the other vector of the id being written / deleted; the same of another id (the most recent unflushed insert, else the highest live id); insert of the lowest absent id; \
+         remove of the id being written (cases in which the mutation has nothing to do are not counted). The pass runs to its end without error, the image loads, nothing pending implies load(image) == live index, \
+         and after the remaining operations and fault-free passes to quiescence the reload equals the live index (ids, vectors, layers, adjacency lists, metadata version) and the model",
     );
     run.assume("whatever reaches a node/ids/metadata callback or writer is durable and each object is replaced atomically (a non-empty writer = the object was replaced); a caller runs purge_removed_nodes only after the persist step ran to its end, as documented");
-    run.assume("single-threaded use (no mutation while a pass is in flight: part interleave covers that for flush_with); layer assignment exhaustive only over the declared layer seeds");
+    run.assume("single-threaded use: a mutation only at the await points the pass offers (inside a callback, or between two calls of the granular protocols), one mutation per pass; layer assignment exhaustive only over the declared layer seeds");
     run.finish();
 }
